@@ -426,6 +426,7 @@ package parse
 //@   params pfx modules skipUnknown
 //@   modifies *
 //@   keeps map[string]bool
+//@   keeps map[Node]bool
 //@   ensures result0 == node_mod_by_prefix(self, pfx) && result1 == node_mod_by_prefix_err(self, pfx)
 //@ func (*node).YangPrefixToNamespace
 //@   requires n != nil && n.tree != nil && n.tree.Root != nil
